@@ -200,6 +200,52 @@ def max_interval(nodes):
     return m
 
 
+async def _drain(run, do, nodes, obs):
+    """Bring the pipeline to quiescence: finish consumers and jobs, let timers expire, until nothing but empty ticks happens."""
+    # drain
+    big = 2 * max_interval(nodes) + 1
+    for _ in range(80):
+        if run.pending:
+            await do({"op": "sinkdone", "tok": sorted(run.pending)[0]})
+        elif run.jobs:
+            await do({"op": "jobdone", "job": sorted(run.jobs)[0]})
+        elif not all(f is None or f.done() for f in run.emits):
+            await do({"op": "advance", "dt": big})
+            if not run.pending and not run.jobs and not all(f is None or f.done() for f in run.emits):
+                await do({"op": "advance", "dt": big})
+                if not run.pending and not run.jobs:
+                    break
+        else:
+            break
+    # keep going until nothing but empty time-window ticks happens any more
+    def busy(o):
+        return any(e[0] in ("arrive", "jobstart") and e[3 if e[0] == "arrive" else 3] not in ({"t": []}, [])
+                   for e in o["log"] if e[0] in ("arrive", "jobstart"))
+    calm = 0
+    for _ in range(120):
+        if run.pending:
+            await do({"op": "sinkdone", "tok": sorted(run.pending)[0]})
+            calm = 0
+        elif run.jobs:
+            await do({"op": "jobdone", "job": sorted(run.jobs)[0]})
+            calm = 0
+        else:
+            await do({"op": "advance", "dt": big})
+            calm = 0 if busy(obs[-1]) or run.jobs else calm + 1
+            if calm >= 3:
+                break
+    # finish without letting time pass, so that the final observation is a quiescent point
+    # (a timed window hands an empty batch to an asynchronous consumer at every tick)
+    for _ in range(40):
+        if run.pending:
+            await do({"op": "sinkdone", "tok": sorted(run.pending)[0]})
+        elif run.jobs:
+            await do({"op": "jobdone", "job": sorted(run.jobs)[0]})
+        else:
+            break
+
+
+
 def run_adaptive(nodes, rng, n_ops, opts=None, flavour="future"):
     """Returns (case, observations); the schedule ends with a drain to quiescence."""
     opts = opts or {}
@@ -243,47 +289,7 @@ def run_adaptive(nodes, rng, n_ops, opts=None, flavour="future"):
                     await do(op)
                 else:
                     await do(choose_op(rng, run, nodes, st, opts))
-            # drain
-            big = 2 * max_interval(nodes) + 1
-            for _ in range(80):
-                if run.pending:
-                    await do({"op": "sinkdone", "tok": sorted(run.pending)[0]})
-                elif run.jobs:
-                    await do({"op": "jobdone", "job": sorted(run.jobs)[0]})
-                elif not all(f is None or f.done() for f in run.emits):
-                    await do({"op": "advance", "dt": big})
-                    if not run.pending and not run.jobs and not all(f is None or f.done() for f in run.emits):
-                        await do({"op": "advance", "dt": big})
-                        if not run.pending and not run.jobs:
-                            break
-                else:
-                    break
-            # keep going until nothing but empty time-window ticks happens any more
-            def busy(o):
-                return any(e[0] in ("arrive", "jobstart") and e[3 if e[0] == "arrive" else 3] not in ({"t": []}, [])
-                           for e in o["log"] if e[0] in ("arrive", "jobstart"))
-            calm = 0
-            for _ in range(120):
-                if run.pending:
-                    await do({"op": "sinkdone", "tok": sorted(run.pending)[0]})
-                    calm = 0
-                elif run.jobs:
-                    await do({"op": "jobdone", "job": sorted(run.jobs)[0]})
-                    calm = 0
-                else:
-                    await do({"op": "advance", "dt": big})
-                    calm = 0 if busy(obs[-1]) or run.jobs else calm + 1
-                    if calm >= 3:
-                        break
-            # finish without letting time pass, so that the final observation is a quiescent point
-            # (a timed window hands an empty batch to an asynchronous consumer at every tick)
-            for _ in range(40):
-                if run.pending:
-                    await do({"op": "sinkdone", "tok": sorted(run.pending)[0]})
-                elif run.jobs:
-                    await do({"op": "jobdone", "job": sorted(run.jobs)[0]})
-                else:
-                    break
+            await _drain(run, do, nodes, obs)
             return obs
         finally:
             run.cleanup()
@@ -292,27 +298,42 @@ def run_adaptive(nodes, rng, n_ops, opts=None, flavour="future"):
     return case, obs
 
 
-def rerun(case):
+def rerun(case, drain=True):
+    """Re-execute the operations of `case` on the real code.  Unless `drain` is off the run is then brought to quiescence the way
+    `run_adaptive` does and the operations that took are APPENDED to case["ops"] (a fresh list): the oracles speak about quiescent
+    ends, so a shortened or hand-written schedule is completed rather than judged half-way."""
     nrefs = max([e.get("ref") or 0 for op in elementary(case) if op["op"] == "emit" for e in op.get("md", [])] + [0])
+    given = list(case["ops"])
+    case["ops"] = []
 
     async def main(loop):
         run = graphlib.Run(case, loop=loop, consumer_flavour=case.get("flavour", "future"))
         obs = []
+
+        async def do(op):
+            case["ops"].append(op)
+            err = run.do_sync(op)
+            if op["op"] == "advance":
+                await vloop.advance(op["dt"], loop)
+            await vloop.settle(loop, rounds=2)
+            o = run.observe(op, err)
+            o["counts"] = run.counts(list(range(1, nrefs + 1)))
+            o["pending"] = sorted(run.pending)
+            o["jobs"] = sorted(run.jobs)
+            obs.append(o)
         try:
-            for op in case["ops"]:
-                err = run.do_sync(op)
-                if op["op"] == "advance":
-                    await vloop.advance(op["dt"], loop)
-                await vloop.settle(loop, rounds=2)
-                o = run.observe(op, err)
-                o["counts"] = run.counts(list(range(1, nrefs + 1)))
-                o["pending"] = sorted(run.pending)
-                o["jobs"] = sorted(run.jobs)
-                obs.append(o)
+            for op in given:
+                await do(op)
+            if drain:
+                await _drain(run, do, case["nodes"], obs)
             return obs
         finally:
             run.cleanup()
-    return vloop.run(main)
+    try:
+        return vloop.run(main)
+    except BaseException:
+        case["ops"] = given
+        raise
 
 
 # ------------------------------------------------------------------ reference (synchronous semantics)
@@ -820,7 +841,16 @@ def is_nontrivial(case, obs):
     return ops.count("emit") >= 2 and sum(len(o["log"]) for o in obs) >= 8
 
 
+def invalid_schedule(obs):
+    return any((o.get("err") or "").startswith("invalid-op") for o in obs)
+
+
 def evaluate(ctx, case, obs, oracles, signatures):
+    if invalid_schedule(obs):
+        # a recorded schedule (regression corpus, replay) completes a consumer / job that does not exist in this run: schedules are
+        # generated against the behaviour of the tree they ran on; on this tree the recorded one is not a schedule at all
+        ctx.count("recorded-schedule-not-applicable")
+        return
     for n in case["nodes"]:
         ctx.count("kind:" + n["kind"])
     for op in case["ops"]:
@@ -834,6 +864,8 @@ def evaluate(ctx, case, obs, oracles, signatures):
 
             def still(trial):
                 o2 = rerun(trial)
+                if invalid_schedule(o2):
+                    return False
                 return any(p[0] == sig for p in ORACLES[name](trial, o2))
             ctx.failure(sig, what, shrink(case, still), oracle=name)
             return
